@@ -424,6 +424,11 @@ impl<'a> Rewriter<'a> {
                     lit, hname, tps.join(", "), ps.join(", "), spec);
                 self.fmt_helpers.push((hname.clone(), helper));
                 self.logr("R3", line, format!("format!({:?}, ..{} args) -> {}", lit, n, fname));
+                // the arguments are real code: rewrite them too
+                let mut call_args = call_args;
+                for a in call_args.iter_mut() {
+                    self.visit_expr_mut(a);
+                }
                 Some(parse_quote!(#fname(#(&#call_args),*)))
             }
             "select" => {
@@ -706,6 +711,11 @@ impl<'a> VisitMut for Rewriter<'a> {
         let mut out: Vec<Stmt> = Vec::new();
         let stmts = std::mem::take(&mut b.stmts);
         for s in stmts {
+            if let Stmt::Item(Item::Use(_)) = &s {
+                let l = line_of(&s);
+                self.logr("R0", l, "`use` item inside a body dropped (names resolve to the prelude)");
+                continue;
+            }
             if let Stmt::Macro(sm) = &s {
                 let name = Rewriter::macro_name(&sm.mac);
                 if TRACING.contains(&name.as_str()) && !self.macro_map.contains_key(&name) {
@@ -1366,9 +1376,16 @@ fn process_fn(
     }
     let mut mk = Marker { spec, uid: uid.to_string(), used_loops: vec![], used_closures: vec![], errors: vec![], closure_headers: BTreeMap::new() };
     mk.visit_block_mut(block);
-    for k in spec.loops.keys() {
-        if !mk.used_loops.contains(k) {
-            mk.errors.push(format!("lost-anchor: loop #{} not found in {}", k, sig.ident));
+    // A loop-free body needs no invariants: the loop specs are dropped (logged) and the body is
+    // checked as it stands.  Any other mismatch in the loop count is a lost anchor.
+    let loop_free = num.loops == 0 && !spec.loops.is_empty();
+    if loop_free {
+        out.rewrites.push(RewriteLog { rule: "R30".into(), line: 0, detail: format!("{}: body has no loops, {} loop spec(s) unused", sig.ident, spec.loops.len()) });
+    } else {
+        for k in spec.loops.keys() {
+            if !mk.used_loops.contains(k) {
+                mk.errors.push(format!("lost-anchor: loop #{} not found in {}", k, sig.ident));
+            }
         }
     }
     for k in spec.closures.keys() {
@@ -1379,8 +1396,10 @@ fn process_fn(
     for e in mk.errors {
         out.error = Some(match out.error.take() { Some(x) => format!("{}; {}", x, e), None => e });
     }
-    for (k, text) in &spec.loops {
-        subs.push(("loop".into(), format!("__vxloop_{}_{}", uid, k), text.clone()));
+    if !loop_free {
+        for (k, text) in &spec.loops {
+            subs.push(("loop".into(), format!("__vxloop_{}_{}", uid, k), text.clone()));
+        }
     }
     for (k, text) in &spec.closures {
         // drop header line (already applied structurally)
